@@ -180,6 +180,12 @@ def run(prog, rep):
     # (a list or a nullable link breaks the cycle): too few links accept invalid schemas, too many
     # reject valid ones.  Decided by C15.CYCLE, shared here because both directions are verdicts of
     # this property.
-    from .C15 import rule_cycle
+    from .C15 import rule_chain, rule_cycle, rule_kinds, rule_reserved, rule_rows
     rule_cycle(prog, rep)
+    # `broken invariant => diagnostic` on the validators' own branch structure, the kind predicates
+    # and the call chain from validate_schema are verdict conditions of this property as well
+    rule_rows(prog, rep)
+    rule_kinds(prog, rep)
+    rule_chain(prog, rep)
+    rule_reserved(prog, rep)
     rep.note("presence of a handler per rule is a necessary condition only; agreement of verdicts with graphql-js is not decided")
